@@ -19,7 +19,7 @@ type pool struct {
 	keys, vals []string
 }
 
-// Pools (4 keys, 3 or 4 values each; a config "<pool>:<nk>x<nv>" uses the
+// Pools (4 or 5 keys, 3 or 4 values each; a config "<pool>:<nk>x<nv>" uses the
 // first nk keys and nv values). base64url facts used: enc(s) is a string prefix
 // of enc(t) when len(s)%3==0 and s is a prefix of t ("abc"/"abcd"/"abcdef"),
 // when len(s)%3==1 and the next byte of t is < 0x10 ("a"/"a\x00"/"a\x0f" but
@@ -29,10 +29,10 @@ type pool struct {
 var poolOrder = []string{"encprefix3", "encprefix1", "encprefix2", "pathy", "dots", "bytes", "lookalike", "cidlike", "case", "long", "spaces", "valprefix"}
 
 var pools = map[string]pool{
-	"encprefix3": {[]string{"abc", "abcd", "abcdef", "ab"}, []string{"a", "a\x00", "x", "abc"}},
+	"encprefix3": {[]string{"abc", "abcd", "abcdef", "ab", "abcdefg"}, []string{"a", "a\x00", "x", "abc"}},
 	"encprefix1": {[]string{"a", "a\x00", "a\x0f", "a\x10"}, []string{"abc", "abcd", "a", "a\x00"}},
 	"encprefix2": {[]string{"ab", "ab?", "ab0", "ab@"}, []string{"ab", "ab?", "/", "ab0"}},
-	"pathy":      {[]string{"/", "a/b", "a", "//"}, []string{"/", "..", "a/b/", "b"}},
+	"pathy":      {[]string{"/", "a/b", "a", "//", "a//b"}, []string{"/", "..", "a/b/", "b"}},
 	"dots":       {[]string{".", "..", "./a", "a/.."}, []string{".", "..", "\x00"}},
 	"bytes":      {[]string{"\x00", "\x00\x00", "\xff", "\xff\xff"}, []string{"\xff", "\x00", "uAA"}},
 	"lookalike":  {[]string{"abc", "uYWJj", "YWJj", "u"}, []string{"uYWJj", "abc", "uYWJj/ueA"}},
@@ -221,12 +221,15 @@ func (s *seqSys) Close() {}
 
 func seqConfigs(r *eng.Run) []string {
 	cfgs := []string{}
+	if r.Thorough() {
+		// biggest first (they run as separate unit processes)
+		cfgs = append(cfgs, "encprefix3:5x3", "pathy:5x3")
+	}
 	for _, name := range poolOrder {
-		p := pools[name]
 		if r.Thorough() {
-			cfgs = append(cfgs, fmt.Sprintf("%s:%dx%d", name, len(p.keys), len(p.vals)))
+			cfgs = append(cfgs, name+":4x3")
 		} else {
-			cfgs = append(cfgs, fmt.Sprintf("%s:3x3", name))
+			cfgs = append(cfgs, name+":3x3")
 		}
 	}
 	return cfgs
